@@ -44,6 +44,9 @@ package idealmemcontroller
 // the flat byte view of the storage is what it was: old units are the same objects with the same contents, new units read 0
 //@ pred viewKept(m) = (forall k uint64 :: old(k in stor(m).data) ==> (k in stor(m).data) && stor(m).data[k] == old(stor(m).data[k])) && (forall k uint64 :: old(k in stor(m).data) ==> forall j in 0..usz(m) :: stor(m).data[k].data[j] == old(stor(m).data[k].data[j])) && (forall k uint64 :: (k in stor(m).data) && !old(k in stor(m).data) ==> forall j in 0..usz(m) :: stor(m).data[k].data[j] == 0)
 
+// units created during the call have backing arrays allocated during the call (never a buffer the caller already had)
+//@ pred createdFresh(m) = forall k uint64 :: (k in stor(m).data) && !old(k in stor(m).data) ==> fresh(stor(m).data[k].data)
+
 //@ fn (*memMiddleware).topPort
 //@   property C16
 //@   requires imcWF(m)
@@ -89,6 +92,8 @@ package idealmemcontroller
 //@   ensures result ==> forall k uint64 :: k in stor(m).data ==> forall j in 0..usz(m) :: int(tx.Address) <= k + j && k + j < int(tx.Address) + int(tx.AccessByteSize) ==> rdRsp(m).Data[k + j - int(tx.Address)] == stor(m).data[k].data[j]
 //@   label C16.imc.read.storage.kept
 //@   ensures viewKept(m)
+//@   label C16.imc.read.created.fresh
+//@   ensures createdFresh(m)
 //@   label C16.imc.read.wf
 //@   ensures memWF(m) && idGenOK()
 //@   assigns elems(stor(m).data), canSend, sendCnt, sentTyp, sentVal, issued, key("G|github.com/sarchlab/akita/v5/timing.idGenerator|"), key("G|github.com/sarchlab/akita/v5/timing.idGeneratorInstantiated|"), key("O|timing.sequentialIDGenerator|nextID"), key("O|timing.parallelIDGenerator|nextID")
@@ -132,6 +137,8 @@ package idealmemcontroller
 //@   ensures forall i in 0..len(tx.DirtyMask) :: tx.DirtyMask[i] == old(tx.DirtyMask[i])
 //@   label C16.imc.write.data.kept
 //@   ensures tx.DirtyMask == nil ==> forall i in 0..len(tx.Data) :: tx.Data[i] == old(tx.Data[i])
+//@   label C16.imc.write.created.fresh
+//@   ensures createdFresh(m)
 //@   label C16.imc.write.wf
 //@   ensures memWF(m) && idGenOK()
 //@   assigns elems(stor(m).data), key("E|uint8|"), canSend, sendCnt, sentTyp, sentVal, issued, key("G|github.com/sarchlab/akita/v5/timing.idGenerator|"), key("G|github.com/sarchlab/akita/v5/timing.idGeneratorInstantiated|"), key("O|timing.sequentialIDGenerator|nextID"), key("O|timing.parallelIDGenerator|nextID")
@@ -144,6 +151,7 @@ package idealmemcontroller
 //@   label C16.imc.write.merge.todo
 //@   loop 0: invariant forall q in i..len(tx.Data) :: data[q] == stor(m).data[Read_rU[q]].data[int(tx.Address) + q - Read_rU[q]]
 //@   loop 0: invariant viewKept(m)
+//@   loop 0: invariant createdFresh(m)
 //@   loop 0: invariant forall q in 0..len(tx.Data) :: tx.Data[q] == old(tx.Data[q])
 
 // ---- a finished transaction: ONE response of the kind of the request; reads leave the storage view alone ----
@@ -182,6 +190,8 @@ package idealmemcontroller
 //@   ensures result && !tx.IsRead ==> forall i in 0..len(tx.Data) :: stor(m).data[sU[i]].data[int(tx.Address) + i - sU[i]] == (wmask(tx, i) ? old(tx.Data[i]) : (old(sU[i] in stor(m).data) ? old(stor(m).data[sU[i]].data[int(tx.Address) + i - sU[i]]) : 0))
 //@   label C16.imc.rsp.write.outside
 //@   ensures result && !tx.IsRead ==> forall k uint64 :: k in stor(m).data ==> forall j in 0..usz(m) :: !(int(tx.Address) <= k + j && k + j < int(tx.Address) + len(tx.Data)) ==> stor(m).data[k].data[j] == (old(k in stor(m).data) ? old(stor(m).data[k].data[j]) : 0)
+//@   label C16.imc.rsp.created.fresh
+//@   ensures createdFresh(m)
 //@   label C16.imc.rsp.wf
 //@   ensures memWF(m) && idGenOK()
 //@   assigns elems(stor(m).data), key("E|uint8|"), canSend, sendCnt, sentTyp, sentVal, issued, key("G|github.com/sarchlab/akita/v5/timing.idGenerator|"), key("G|github.com/sarchlab/akita/v5/timing.idGeneratorInstantiated|"), key("O|timing.sequentialIDGenerator|nextID"), key("O|timing.parallelIDGenerator|nextID")
@@ -206,3 +216,65 @@ package idealmemcontroller
 //@   label C16.imc.intake.latency
 //@   ensures result.CycleLeft == m.comp.spec.Latency
 //@   assigns nothing
+
+// ---- intake loop: every retrieved request becomes exactly ONE in-flight transaction; the ones already there stay ----
+//@ func ifl(m) = m.comp.State.InflightTransactions
+//@ pred iflKept(m, n) = forall t in 0..n :: ifl(m)[t].ReqID == old(ifl(m)[t].ReqID) && ifl(m)[t].Src == old(ifl(m)[t].Src) && ifl(m)[t].IsRead == old(ifl(m)[t].IsRead) && ifl(m)[t].Address == old(ifl(m)[t].Address) && ifl(m)[t].AccessByteSize == old(ifl(m)[t].AccessByteSize) && ifl(m)[t].CycleLeft == old(ifl(m)[t].CycleLeft)
+//@ fn (*memMiddleware).takeNewReqs
+//@   property C16
+//@   requires imcWF(m) && len(ifl(m)) <= cap(ifl(m))
+//@   panics any
+//@   label C16.imc.intake.disabled
+//@   ensures old(m.comp.State.ControlState) != memcontrolprotocol.StateEnabled ==> !madeProgress && nothingRetrieved() && len(ifl(m)) == old(len(ifl(m)))
+//@   label C16.imc.intake.count
+//@   ensures retrCnt[topP(m)] - old(retrCnt)[topP(m)] == len(ifl(m)) - old(len(ifl(m)))
+//@   label C16.imc.intake.others
+//@   ensures forall p int :: p != topP(m) ==> retrCnt[p] == old(retrCnt)[p]
+//@   label C16.imc.intake.kept
+//@   ensures iflKept(m, old(len(ifl(m))))
+//@   label C16.imc.intake.progress
+//@   ensures madeProgress <==> len(ifl(m)) > old(len(ifl(m)))
+//@   label C16.imc.intake.nosend
+//@   ensures nothingSent()
+//@   assigns m.comp.State.InflightTransactions, elems(m.comp.State.InflightTransactions), inTyp, inVal, retrCnt
+//@   loop 0: invariant imcWF(m) && 0 <= i && len(ifl(m)) <= cap(ifl(m)) && old(len(ifl(m))) <= len(ifl(m))
+//@   label C16.imc.intake.count.inv
+//@   loop 0: invariant retrCnt[topP(m)] - old(retrCnt)[topP(m)] == len(ifl(m)) - old(len(ifl(m)))
+//@   loop 0: invariant forall p int :: p != topP(m) ==> retrCnt[p] == old(retrCnt)[p]
+//@   loop 0: invariant iflKept(m, old(len(ifl(m))))
+//@   loop 0: invariant madeProgress <==> len(ifl(m)) > old(len(ifl(m)))
+//@   loop 0: invariant nothingSent()
+//@   loop 0: invariant ref(ifl(m)) == old(ref(ifl(m))) || fresh(ifl(m))
+
+// ---- countdown loop: a transaction leaves the in-flight list IFF its response was sent (one response each); a busy port
+// delays every finished transaction and drops none; a paused controller does nothing ----
+//@ pred txOK(m, t) = (ifl(m)[t].IsRead ==> int(ifl(m)[t].Address) + int(ifl(m)[t].AccessByteSize) <= int(stor(m).capacity)) && (!ifl(m)[t].IsRead ==> int(ifl(m)[t].Address) + len(ifl(m)[t].Data) <= int(stor(m).capacity) && (ifl(m)[t].DirtyMask == nil || len(ifl(m)[t].DirtyMask) >= len(ifl(m)[t].Data)))
+//@ pred txBufsOK(m) = forall t in 0..len(ifl(m)) :: forall k uint64 :: k in stor(m).data ==> ref(stor(m).data[k].data) != ref(ifl(m)[t].Data)
+//@ pred txBufsOld(m, top) = forall t in 0..len(ifl(m)) :: ref(ifl(m)[t].Data) <= top
+//@ pred othersSendKept(m) = forall p int :: p != topP(m) ==> sendCnt[p] == old(sendCnt)[p]
+//@ fn (*memMiddleware).processCountdowns
+//@   property C16
+//@   requires memWF(m) && idGenOK() && ref(ifl(m)) <= allocTop && len(ifl(m)) <= 1<<40
+//@   requires forall t in 0..len(ifl(m)) :: txOK(m, t)
+//@   requires txBufsOK(m) && txBufsOld(m, allocTop)
+//@   label C16.imc.countdown.paused
+//@   ensures old(m.comp.State.ControlState) == memcontrolprotocol.StatePaused ==> !result && nothingSent() && len(ifl(m)) == old(len(ifl(m))) && ref(ifl(m)) == old(ref(ifl(m))) && viewKept(m)
+//@   label C16.imc.countdown.once
+//@   ensures old(m.comp.State.ControlState) != memcontrolprotocol.StatePaused ==> sendCnt[topP(m)] - old(sendCnt)[topP(m)] == old(len(ifl(m))) - len(ifl(m))
+//@   label C16.imc.countdown.others
+//@   ensures othersSendKept(m)
+//@   label C16.imc.countdown.blocked
+//@   ensures !old(canSend[topP(m)]) ==> sendCnt == old(sendCnt) && len(ifl(m)) == old(len(ifl(m))) && viewKept(m)
+//@   label C16.imc.countdown.wf
+//@   ensures memWF(m) && idGenOK()
+//@   assigns m.comp.State.InflightTransactions, elems(stor(m).data), key("E|uint8|"), canSend, sendCnt, sentTyp, sentVal, issued, key("G|github.com/sarchlab/akita/v5/timing.idGenerator|"), key("G|github.com/sarchlab/akita/v5/timing.idGeneratorInstantiated|"), key("O|timing.sequentialIDGenerator|nextID"), key("O|timing.parallelIDGenerator|nextID")
+//@   loop 0: invariant memWF(m) && idGenOK() && -1 <= rangeindex && rangeindex < len(ifl(m))
+//@   loop 0: invariant ref(ifl(m)) == old(ref(ifl(m))) && off(ifl(m)) == old(off(ifl(m))) && len(ifl(m)) == old(len(ifl(m))) && ref(ifl(m)) <= old(allocTop)
+//@   loop 0: invariant fresh(remaining) && len(remaining) <= rangeindex + 1 && len(remaining) <= cap(remaining)
+//@   loop 0: invariant forall t in 0..len(ifl(m)) :: txOK(m, t)
+//@   loop 0: invariant txBufsOK(m) && txBufsOld(m, old(allocTop))
+//@   label C16.imc.countdown.once.inv
+//@   loop 0: invariant sendCnt[topP(m)] == old(sendCnt)[topP(m)] + (rangeindex + 1) - len(remaining)
+//@   loop 0: invariant othersSendKept(m)
+//@   label C16.imc.countdown.blocked.inv
+//@   loop 0: invariant !old(canSend[topP(m)]) ==> sendCnt == old(sendCnt) && canSend == old(canSend) && len(remaining) == rangeindex + 1 && viewKept(m)
